@@ -14,11 +14,6 @@ NOT_APPLICABLE = {
     "C01": "End-to-end forwardability is a statement about AES-CMAC values chained over a graph-search result on arbitrary "
            "topologies; no clause is visible in code shape (a wrong SegID/ingress decision is a value, not a missing construct). "
            "MAC-input completeness is decided under C11.",
-    "C04": "Equality of the combinator's result set with the SCION combination rules and truthfulness of aggregated metadata are "
-           "computed-value properties over all segment sets; the shape-level remnants are already pinned by the example tests, so a "
-           "static rule would detect nothing the suite does not and could not separate a value mutant from a refactoring.",
-    "C07": "Depends on float scores, decay half-lives, swap thresholds and event order; the only structural piece (rerank before "
-           "return) is neither sufficient nor a meaningful necessary condition of the switch actually happening.",
 }
 
 # Rule modules that exist under engine/rules but are deliberately NOT registered as checks: their
